@@ -13,7 +13,8 @@ Inductive err : Type :=
 | EIo (kind : N)          (* io::Error, kind = a small code chosen by the harness *)
 | EMerge                  (* Error::Merge(user error) *)
 | EInvalidCodec           (* Error::InvalidCompressionType *)
-| EInvalidVersion.        (* Error::InvalidFormatVersion *)
+| EInvalidVersion         (* Error::InvalidFormatVersion *)
+| EFuel.                  (* the model ran out of fuel: the real code would not terminate *)
 
 (* Every Rust panic site (assert!, slice index, unwrap, checked arithmetic) is a Panic
    branch in the model, so "never panics" is a statement and not a by-product of totality. *)
@@ -91,3 +92,15 @@ Definition wf_bytesb (l : bytes) : bool := forallb (fun b => b <? 256) l.
 Definition u8 (x : N) : N := x mod 256.
 Definition u32 (x : N) : N := x mod 2^32.
 Definition U32_MAX : N := 4294967295.
+
+(* io::ErrorKind codes shared with the harness *)
+Definition IO_UNEXPECTED_EOF : N := 1.
+Definition IO_INVALID_INPUT : N := 2.
+Definition IO_WRITE_ZERO : N := 3.
+Definition IO_INTERRUPTED : N := 4.
+Definition IO_OTHER : N := 5.
+Definition IO_INVALID_DATA : N := 6.
+Definition IO_INJECTED : N := 7.
+
+Fixpoint last_opt {A} (l : list A) : option A :=
+  match l with [] => None | [x] => Some x | _ :: r => last_opt r end.
